@@ -17,13 +17,13 @@ enum { O_INS, O_TAKE, O_PEEK, O_RM, O_LEN, O_CLEAR, O_ITERATE, O_ITR_NEW, O_ITR_
        O_RMPTR, O_RMKEY, O_RMABSENT, O_FINDPTR, O_FINDKEY, O_FINDABSENT };
 
 /* elements: fresh identity per insertion */
-typedef struct { int id, cls; } elem_t;
+typedef struct { int id, cls, probe; } elem_t;      /* probe: what the key-style comparator (--cmp 2) reads from its first argument */
 #define MAXE 96
 static elem_t E[MAXE]; static int nE;
 static int dcount[MAXE];           /* destructor calls per element */
 static int expect_d[MAXE];         /* monitor: expected destructor calls per element */
 static int replaced[MAXE];         /* replaced through itr_set: destructor call optional (0 or 1) */
-static elem_t KEY[2] = { {-1, 0}, {-2, 1} }, ABSENT = { -3, 7 };
+static elem_t KEY[2] = { {-1, 0, 0}, {-2, 1, 1} }, ABSENT = { -3, 7, 7 };
 
 /* model */
 static int arr[16], n;             /* container order: queue head..tail, stack top..bottom, list head..tail */
@@ -40,6 +40,9 @@ static void dtor_cb(void *p) {
     dcount[e->id]++; sx_obs(500 + e->id);
 }
 static int cmp_cb(void *a, void *b) { return ((elem_t *)a)->cls - ((elem_t *)b)->cls; }
+/* --cmp 2: the documented "first argument is a key, second an element" shape: an element passed as the key never compares equal to
+ * anything (its probe field is outside the class range), so finding / removing it by pointer must fall back on pointer identity */
+static int cmp_key_cb(void *a, void *b) { return ((elem_t *)a)->probe - ((elem_t *)b)->cls; }
 
 static void audit_dtor(const char *when) {
     for (int i = 0; i < nE; i++) {
@@ -79,12 +82,12 @@ static void h_reset(void) {
     Q = NULL; S = NULL; L = NULL; QI = NULL; SI = NULL; LI = NULL;
     if (KIND == K_QUEUE) Q = m_queue_new(DTOR ? dtor_cb : NULL);
     else if (KIND == K_STACK) S = m_stack_new(DTOR ? dtor_cb : NULL);
-    else L = m_list_new(CMP ? cmp_cb : NULL, DTOR ? dtor_cb : NULL);
+    else L = m_list_new(CMP == 2 ? cmp_key_cb : CMP ? cmp_cb : NULL, DTOR ? dtor_cb : NULL);
     if (!Q && !S && !L) sx_fail("CT.new", "CT.new", "constructor returned NULL");
 }
 static void h_cleanup(void) { lg_reset(); }
 
-static elem_t *fresh(int cls) { if (nE >= MAXE) sx_fail("INTERNAL", "INTERNAL", "element pool exhausted"); E[nE].id = nE; E[nE].cls = cls; return &E[nE++]; }
+static elem_t *fresh(int cls) { if (nE >= MAXE) sx_fail("INTERNAL", "INTERNAL", "element pool exhausted"); E[nE].id = nE; E[nE].cls = cls; E[nE].probe = 100 + nE; return &E[nE++]; }
 static void arr_ins(int pos, int id) { for (int i = n; i > pos; i--) arr[i] = arr[i - 1]; arr[pos] = id; n++; }
 static int arr_del(int pos) { int id = arr[pos]; for (int i = pos; i < n - 1; i++) arr[i] = arr[i + 1]; n--; return id; }
 static void *itr_ptr(void) { return KIND == K_QUEUE ? (void *)QI : KIND == K_STACK ? (void *)SI : (void *)LI; }
@@ -188,7 +191,7 @@ static void h_apply(op_t op) {
     case O_RMPTR: case O_RMKEY: case O_RMABSENT: {
         void *key = op.c == O_RMPTR ? (void *)&E[arr[op.a]] : op.c == O_RMKEY ? (void *)&KEY[op.a] : (void *)&ABSENT;
         int pos = -1;
-        if (op.c == O_RMPTR) { pos = op.a; if (CMP) { int f = first_match_key(E[arr[op.a]].cls); if (f >= 0 && f < pos) pos = f; } }
+        if (op.c == O_RMPTR) { pos = op.a; if (CMP == 1) { int f = first_match_key(E[arr[op.a]].cls); if (f >= 0 && f < pos) pos = f; } }
         else if (op.c == O_RMKEY) pos = first_match_key(op.a);
         rc = m_list_remove(L, key);
         if (pos < 0) { if (rc >= 0) sx_fail("CT.rm", "CT.rm|absent", "remove of an absent element returned %d", rc); break; }
@@ -198,7 +201,7 @@ static void h_apply(op_t op) {
     case O_FINDPTR: case O_FINDKEY: case O_FINDABSENT: {
         void *key = op.c == O_FINDPTR ? (void *)&E[arr[op.a]] : op.c == O_FINDKEY ? (void *)&KEY[op.a] : (void *)&ABSENT;
         int pos = -1;
-        if (op.c == O_FINDPTR) { pos = op.a; if (CMP) { int f = first_match_key(E[arr[op.a]].cls); if (f >= 0 && f < pos) pos = f; } }
+        if (op.c == O_FINDPTR) { pos = op.a; if (CMP == 1) { int f = first_match_key(E[arr[op.a]].cls); if (f >= 0 && f < pos) pos = f; } }
         else if (op.c == O_FINDKEY) pos = first_match_key(op.a);
         r = m_list_find(L, key);
         if (pos < 0 ? r != NULL : r != &E[arr[pos]]) sx_fail("CT.find", "CT.find", "find returned %s, expected %s", r ? "an element" : "NULL", pos < 0 ? "NULL" : "the first match");
